@@ -194,11 +194,13 @@ class CaseTimeout(BaseException):
 
 
 _ARMED = [False]
+_FIRED = [False]
 
 
 def _alarm(signum, frame):
     # the timer repeats (see run_case); deliveries after the case has ended are ignored
     if _ARMED[0]:
+        _FIRED[0] = True
         raise CaseTimeout()
 
 
@@ -208,11 +210,32 @@ def _disarm():
     signal.setitimer(signal.ITIMER_REAL, 0)
 
 
+def _reset_numpy_error_state():
+    """numpy's floating-point error handling is process-global state; a per-case alarm that fires inside numpy's own errstate
+    bookkeeping (numpy.linalg installs a callback that raises LinAlgError on 'invalid') can leave it altered for all later cases of
+    the worker.  Every case starts from numpy's defaults."""
+    try:
+        import numpy as np
+        np.seterr(divide='warn', over='warn', under='ignore', invalid='warn')
+        np.seterrcall(None)
+    except Exception:
+        pass
+
+
 def run_case(mod, case, ctx, res, deadline=None):
     """Run one case, classify the outcome into res.  A case that exceeds the module's
     CASE_TIMEOUT is counted as inconclusive (never as a violation)."""
+    _FIRED[0] = False
+    _reset_numpy_error_state()
     try:
-        return _run_case(mod, case, ctx, res)
+        out = _run_case(mod, case, ctx, res)
+        if _FIRED[0] and out is not None:
+            # the timer fired during this case and the exception it raised was swallowed by a bare `except:` inside the library,
+            # which then carried on in an undefined state (seen as a LinAlgError out of numpy.roots on a loaded machine): whatever
+            # came out of the case afterwards is not a verdict -- the case is inconclusive like any other timed-out one
+            res['case_timeouts'] = res.get('case_timeouts', 0) + 1
+            return None
+        return out
     except CaseTimeout:
         # delivered in the few instructions between the end of check() and the disarming
         _disarm()
@@ -225,7 +248,7 @@ def _run_case(mod, case, ctx, res):
     ctx.case = case
     ctx.case_nontrivial = False
     res['evaluations'] += 1
-    limit = getattr(mod, 'CASE_TIMEOUT', 120)
+    limit = float(os.environ.get('VERIF_CASE_TIMEOUT') or getattr(mod, 'CASE_TIMEOUT', 120))
     signal.signal(signal.SIGALRM, _alarm)
     # repeating: library code has bare 'except:' blocks that can swallow the first delivery
     _ARMED[0] = True
@@ -573,9 +596,9 @@ def run_check(prop_id, tier, seed):
 
     # vacuity guard -----------------------------------------------------------------
     missing = [k for k in mod_meta.get('REQUIRED', []) if not totals['counters'].get(k)]
-    if missing and totals['timed_out']:
+    if missing and (totals['timed_out'] or totals.get('case_timeouts', 0)):
         # the wall-clock guard cut the run short (loaded machine): inconclusive, not a harness error
-        print('NOTE: run truncated by the wall-clock guard; case classes not reached: %s' % missing)
+        print('NOTE: run truncated by the wall-clock guard or per-case timeouts; case classes not reached: %s' % missing)
     elif missing and not errors:
         errors.append('vacuity guard: required case classes never generated: %s' % missing)
 
